@@ -21,6 +21,24 @@ PROPS["C13"] = {
     "assumptions": ["Conformant (Spec/Msg.lean) is my reading of the INDI vocabulary: vocabulary-valued fields must be present and members; absent number text is allowed"],
 }
 
+PROPS["C04"] = {
+    "suites": [("comp_router", "gen_c04")],
+    "rule": "every subset (thorough: and order) of the devices {A, B, catch-all} x 0..3 registered clients; per state a sweep of every client-originated kind x device name "
+            "{A, B, none, unknown} x every sender (nobody, each client, each device), enableBLOB from every sender incl. an unregistered one for every name and policy, "
+            "unregister + resend; plus random histories up to 200 operations over 5 devices / 5 clients; a history is distinct by its operation list",
+    "exhaustive": False,
+    "trusted_base": ["recording endpoints: Driver / Proxy subclasses with the real accepts()"],
+    "assumptions": ["endpoints do not re-enter the router while a message is being fanned out (recording endpoints)"],
+}
+PROPS["C05"] = {
+    "suites": [("comp_router", "gen_c05")],
+    "rule": "1..3 clients x policy assignments {unset, Never, Also, Only}^3 for device A (quick: 24 sampled assignments) x second device/whole-server policies; per state a sweep "
+            "of every device-originated kind (incl. setBLOBVector, getProperties relay) x device name x sender; change of mind, unregister, enableBLOB while unregistered, re-register; "
+            "plus random histories up to 200 operations; a history is distinct by its operation list",
+    "trusted_base": ["recording endpoints"],
+    "assumptions": ["endpoints do not re-enter the router while a message is being fanned out (recording endpoints)"],
+}
+
 MANIFEST_TEXT = {
     "C20": {
         "text": "Kernel-checked theorem C20 (lean/Indi/Properties/C20.lean): for every class table passing the decidable well-formedness check, and every two constructed "
@@ -40,5 +58,24 @@ MANIFEST_TEXT = {
         "note": "Trusted: Lean kernel + standard axioms; tools/extract.py probes constructors over a finite universe of values (strings outside it are covered by the correspondence only); "
                 "expat/ElementTree are not modelled here (the model starts from the parsed element); number recogniser pinned to the regex literals (theorem number_regexps_pinned).",
         "technique": "Lean 4 generic theorem over class tables + decide +kernel instance on the regenerated table + differential correspondence",
+    },
+    "C04": {
+        "text": "Kernel-checked theorems (lean/Indi/Properties/C04.lean) over ALL histories of register/unregister/send operations: process_deliveries (the model of Router.process_message "
+                "delivers exactly Spec.expected), C04_devices (a client-originated message reaches device i iff i is a registered device, not the sender, accepting the name), "
+                "C04_device_order, deliveries_nodup (exactly once under the no-double-registration precondition), C04_not_to_sender, C04_clients_only_if_fromDevice, and the table obligations "
+                "that getProperties is the only relayed client kind (decide +kernel on the regenerated class table). Correspondence: real Router with recording Driver/Proxy endpoints over "
+                "every registration state of the bounded universe and random long histories; oracle = Spec.expectedTrace computed in Lean from the history alone.",
+        "note": "Trusted: Lean kernel + standard axioms; class flags from tools/extract.py; Driver.accepts modelled as `no name or same name`, catch-all as Proxy.accepts (tied by correspondence only); "
+                "re-entrant delivery (a driver answering inside the fan-out) is not part of this model.",
+        "technique": "Lean 4 refinement proof (router state vs history function) + regenerated class flags + differential correspondence",
+    },
+    "C05": {
+        "text": "Kernel-checked theorems (lean/Indi/Properties/C05.lean) over ALL histories: policy_refinement (blob_routing lookup = history function policyOf: most recent accepted enableBLOB "
+                "since last registration, else Never), C05_clients (device message reaches client c iff registered, not sender, allows(policy, isBlobUpdate)), allows_table, C05_frame "
+                "(independence between clients and between devices), C05_enable_takes_effect, C05_reregister_resets, clients_are_registered, deliveries_nodup. Correspondence over all policy "
+                "assignments of the bounded universe x every device-originated kind, unregister/re-register, and random long histories; oracle = Spec.expectedTrace in Lean.",
+        "note": "Trusted: Lean kernel + standard axioms; class flags and default policy from tools/extract.py; recording endpoints; the delivery condition itself is hand-modelled (deliverCond) "
+                "and proved equal to the specification table `allows` for all 6 cases; its tie to router.py is the correspondence.",
+        "technique": "Lean 4 refinement proof (blob_routing vs history function) + differential correspondence",
     },
 }
